@@ -24,7 +24,10 @@ EXPLANATION = (
     "TopicAndPartition built from it); closing of clients carries the must-hold fact `remove`; each except arm "
     "naming a stale-routing class contains the matching reset before its re-raise."
 )
-SHARED = [('C11', ['R1'], 'a send to an unreachable cached leader fails within the client timeout - the failure is what invalidates the routing'), ('C18', ['R6'], 'the partitioner is given the client\'s whole partition list: a partition without a cached leader is still chosen, sent to, and re-resolved'), ('C14', ['R2'], 'the consumer restores its retry budget after every successful fetch, so a later leader move is retried within it'), ('C10', ['R5'], 'after an outage the broker client reconnects, so producing resumes')]
+SHARED = [('C11', ['R1'], 'a send to an unreachable cached leader fails within the client timeout - the failure is what invalidates the routing'), ('C18', ['R6'], 'the partitioner is given the client\'s whole partition list: a partition without a cached leader is still chosen, sent to, and re-resolved'), ('C14', ['R2'], 'the consumer restores its retry budget after every successful fetch, so a later leader move is retried within it'), ('C10', ['R5'], 'after an outage the broker client reconnects, so producing resumes'),
+          ('C07', ['R5'], 'a failed send is recorded as failed whatever the acks setting: that record is what invalidates the cached routing'),
+          ('C09', ['R5', 'R6'], 'every batch starts with the whole retry budget and the initial interval: a batch that exhausted them during a slow leader move does not starve the next'),
+          ('C14', ['R3', 'R4'], 'a not-leader / unknown-partition answer to a fetch is retried at the consumer\'s own offset: it is not taken for an out-of-range offset')]
 ASSUMPTIONS = ["a metadata response lists every partition of each topic it covers"]
 KC = "client:KafkaClient"
 CACHES = ("topic_partitions", "topics_to_brokers", "topic_errors", "partition_meta")
